@@ -37,7 +37,10 @@ std::string data_bytes(long long start, long long len)
 std::string request_text(Req const& r, int idx)
 {
 	std::string extra = fmt("X-Seq: %d\r\n", idx);
-	std::string cl = r.close ? "Connection: close\r\n" : (idx % 2 ? "Connection: keep-alive\r\n" : "");
+	// header names and the connection option are case-insensitive: the spelling varies with the request's index (same length)
+	static char const* const close_sp[] = {"Connection: close\r\n", "connection: Close\r\n", "CONNECTION: CLOSE\r\n"};
+	static char const* const ka_sp[] = {"Connection: keep-alive\r\n", "Connection: Keep-Alive\r\n"};
+	std::string cl = r.close ? close_sp[idx % 3] : (idx % 2 ? ka_sp[(idx / 2) % 2] : "");
 	switch (r.kind)
 	{
 		case 0: return "GET /hello HTTP/1.1\r\n" + extra + cl + "\r\n";
